@@ -316,6 +316,12 @@ class workq:
             self._waiters.append((channels, ev))
             try:
                 j = ev.get()
+            except BaseException:
+                # killed (e.g. the client disconnected) after a job had already
+                # been handed over: put the job back instead of losing it
+                if ev.ready() and ev.successful() and not ev.value.done:
+                    self.pushjob(ev.value)
+                raise
             finally:
                 if (channels, ev) in self._waiters:
                     self._waiters.remove((channels, ev))
